@@ -92,11 +92,20 @@ class BadRef(Exception):
     pass
 
 
+class MyList(list):
+    """a custom sequence: subclass of list"""
+
+
+class MyTuple(tuple):
+    """a custom sequence: subclass of tuple"""
+
+
 class World:
     def __init__(self, mods):
         self.C, self.SC, self.SE = mods
         C = self.C
         self.names = []
+        self.root_kinds = {}    # name -> class number of a named sequence (8 vin-like, 9 vout-like)
         self.mutable = (C.CMutableOutPoint, C.CMutableTxIn, C.CMutableTxOut, C.CMutableTransaction)
 
     # -- object graph navigation --
@@ -141,7 +150,7 @@ class World:
         if r >= len(self.names) or self.names[r] is None:
             raise BadRef()
         o = self.names[r]
-        k = self.kind(o)
+        k = self.root_kinds.get(r, -1) if self.is_seq(o) else self.kind(o)
         for i in path:
             ks = self.kids(o)
             if i >= len(ks):
@@ -215,6 +224,8 @@ class World:
             out = 'err:py:RecursionError'
         except Exception as e:  # noqa: BLE001 - every escaping exception is an observation
             out = 'err:' + exc_family(e)
+        if new is None:
+            self.root_kinds.pop(len(self.names), None)
         self.names.append(new)
         return out
 
@@ -369,6 +380,35 @@ class World:
             if wit is None:
                 return 'created', C.CMutableTransaction(vin, vout, int(w[3]), int(w[4]))
             return 'created', C.CMutableTransaction(vin, vout, int(w[3]), int(w[4]), wit)
+        if k == 'mkseq':
+            items = [self.resolve_k(p_target(x)) for x in (w[3].split(',') if w[3] != '-' else [])]
+            ek = 1 if w[1] == 'in' else 2
+            if any(kk != ek for _, kk in items):
+                return 'na', None
+            objs = [o for o, _ in items]
+            cont = {'l': list, 't': tuple, 'L': MyList, 'T': MyTuple}[w[2]]
+            self.root_kinds[len(self.names)] = 8 if w[1] == 'in' else 9
+            return 'created', cont(objs)
+        if k == 'newctxfrom':
+            vin, kvi = self.resolve_k(p_target(w[1]))
+            vout, kvo = self.resolve_k(p_target(w[2]))
+            wit, kw = (None, 4) if w[5] == '-' else self.resolve_k(p_target(w[5]))
+            if kvi != 8 or kvo != 9:
+                return 'na', None
+            if kw != 4:
+                return 'na', None
+            if w[6] == 'g':         # any iterable: an iterator and a generator
+                vin, vout = iter(vin), (x for x in vout)
+            if wit is None:
+                return 'created', C.CTransaction(vin, vout, int(w[3]), int(w[4]))
+            return 'created', C.CTransaction(vin, vout, int(w[3]), int(w[4]), wit)
+        if k == 'setwitc':
+            tx = self.root_tx(int(w[1]))
+            if tx is None:
+                return 'na', None
+            c0, c1 = ({'l': list, 't': tuple}[x] for x in w[3])
+            tx.wit = C.CTxWitness(c0(C.CTxInWitness(SC.CScriptWitness(c1(st))) for st in p_wit(w[2])))
+            return 'done', None
         if k == 'newtxd':
             vin, vout = p_list(w[3], p_txin), p_list(w[4], p_txout)
             return 'created', C.CMutableTransaction([self.m_in(i) for i in vin], [self.m_out(x) for x in vout],
@@ -458,13 +498,17 @@ class World:
 
     def observe(self):
         C = self.C
-        live = [(u, o) for u, o in enumerate(self.names) if o is not None]
+        live = []
+        for u, o in enumerate(self.names):
+            if o is not None:
+                targets = []
+                self.walk(o, [], targets)
+                if targets:
+                    live.append((u, o, targets))
         strs = []
         first = {}
         pyc = []
-        for u, root in live:
-            targets = []
-            self.walk(root, [], targets)
+        for u, root, targets in live:
             for path, o in targets:
                 ser = self.res(lambda: hashlib.sha256(o.serialize()).digest()[:8].hex())
                 gh = self.res(lambda: bytes(o.GetHash())[:8].hex())
@@ -485,9 +529,9 @@ class World:
                 strs.append('%s:%s:%s:%s:%s:%s:%s' % ('.'.join(str(x) for x in [u] + path), self.flag(o), ser, gh,
                                                       txid, py, eqs))
         bits = ''
-        for (i, (u, a)) in enumerate(live):
-            for (v, b) in live[i + 1:]:
-                e = self.eq(a, b)
+        for (i, (u, a, _)) in enumerate(live):
+            for (v, b, _) in live[i + 1:]:
+                e = 'na' if self.is_seq(a) or self.is_seq(b) else self.eq(a, b)
                 bits += {'B:1': '1', 'B:0': '0'}.get(e, 'e')
         return ','.join(strs) + '#' + bits
 
@@ -611,6 +655,8 @@ class Gen:
             if r.random() < 0.05:
                 c += [[0], [1], [0, rt['nin'] + 1], [3]]
             p = r.choice(c)
+        elif k in ('seqin', 'seqout'):
+            p = r.choice([[i] for i in range(max(rt['nin'], 1))] + ([[0, 0]] if k == 'seqin' else []))
         elif k == 'txin':
             p = r.choice(([], [0]))
         elif k == 'blk':
@@ -640,6 +686,10 @@ class Gen:
             if len(path) == 2 and path[0] == 1:
                 return dict(kind='txout')
             return dict(kind='wit')
+        if k == 'seqin':
+            return dict(kind='txin') if len(path) == 1 else dict(kind='op')
+        if k == 'seqout':
+            return dict(kind='txout')
         if k == 'txin' and path == [0]:
             return dict(kind='op')
         if path == []:
@@ -767,6 +817,10 @@ class Gen:
             return None
         rt = self.roots[t]
         kd = r.choice(kinds)
+        if kd in ('vin', 'vout') and r.random() < 0.3:
+            pool = [i for i, x in enumerate(self.roots) if x is not None and x['kind'] == ('seqin' if kd == 'vin' else 'seqout')]
+            if pool:
+                return str(r.choice(pool))
         if kd == 'vin':
             return '%d.0' % t
         if kd == 'vout':
@@ -787,7 +841,22 @@ class Gen:
             return self.new_tx()
         rt = self.roots[t]
         e = r.choice(('setref-vin', 'setref-vout', 'setref-wit', 'setref-prev', 'appref-in', 'appref-out', 'repref-in',
-                      'repref-out', 'newtxfrom', 'newtxfrom-d', 'newtxd', 'newin', 'newin-none', 'setprev', 'mismatch'))
+                      'repref-out', 'newtxfrom', 'newtxfrom-d', 'newtxd', 'newin', 'newin-none', 'setprev', 'mismatch',
+                      'mkseq', 'mkseq', 'newctxfrom', 'setwitc'))
+        if e == 'mkseq':
+            part = r.choice(('in', 'out'))
+            n = r.choice((0, 1, 2, 2, 3))
+            items = [self.tx_part((part,)) for _ in range(n)]
+            return self.emit('mkseq %s %s %s' % (part, r.choice('ltLT'), ','.join(items) if items else '-'),
+                             dict(kind='seqin' if part == 'in' else 'seqout', mut=True, nin=n, nout=n))
+        if e == 'newctxfrom':
+            vi, vo = self.tx_part(('vin',)), self.tx_part(('vout',))
+            a, b = self.roots[int(vi.split('.')[0])], self.roots[int(vo.split('.')[0])]
+            return self.emit('newctxfrom %s %s %d %d %s %s' % (vi, vo, self.u32(r.random() < 0.05), self.version(),
+                                                            r.choice(('-', self.tx_part(('wit',)))), r.choice('gn')),
+                             dict(kind='tx', mut=False, nin=a['nin'], nout=b['nout']))
+        if e == 'setwitc':
+            return self.emit('setwitc %d %s %s' % (t, s_wit(self.witness(rt['nin'])), r.choice(('ll', 'lt', 'tl', 'tt'))))
         if e == 'setref-vin':
             src = self.tx_part(('vin',))
             o = self.roots[int(src.split('.')[0])]
@@ -915,6 +984,34 @@ def directed(rng, pool, which):
         g.emit('set %d scriptSig %s' % (d, hx(g.script())))
         g.emit('set %d.0 n %d' % (d, g.u32()))
         g.emit('sighash %d %s 0 %d' % (c, hx(g.script(True)), r.choice((1, 2, 3, 0x81))))
+    elif which == 9:    # every container kind for vin/vout: tuple (and subclasses, iterators) of MUTABLE elements,
+        #                 assigned or given to a constructor; then snapshot; then edit the elements in place
+        nin = max(nin, 2)
+        a = g.new_tx(True, nin=nin, nout=max(nout, 2))
+        c1, c2 = r.choice('tTlL'), r.choice('tTlL')
+        s1 = g.emit('mkseq in %s %d.0.0,%d.0.1' % (c1, a, a), dict(kind='seqin', mut=True, nin=2, nout=2))
+        s2 = g.emit('mkseq out %s %d.1.0,%d.1.1' % (c2, a, a), dict(kind='seqout', mut=True, nin=2, nout=2))
+        b = g.new_tx(True, nin=1, nout=1)
+        g.emit('setref %d 0 %d' % (b, s1))
+        g.roots[b]['nin'] = 2
+        if r.random() < 0.6:
+            g.emit('setref %d 1 %d' % (b, s2))
+            g.roots[b]['nout'] = 2
+        c = g.emit('newtxfrom %d %d %d %d -' % (s1, s2, g.u32(), g.version()), dict(kind='tx', mut=True, nin=2, nout=2))
+        g.emit('snap %d' % b, dict(g.roots[b], mut=False))
+        g.emit('snap %d' % c, dict(g.roots[c], mut=False))
+        g.emit('newctxfrom %d %d %d %d - %s' % (s1, s2, g.u32(), g.version(), r.choice('gn')),
+               dict(kind='tx', mut=False, nin=2, nout=2))
+        g.emit('newctxfrom %d.0 %d.1 1 2 %d.2 %s' % (a, a, a, r.choice('gn')), dict(g.roots[a], mut=False))
+        g.emit('mcopy %d' % c, dict(g.roots[c], mut=True))
+        g.emit('set %d.0.0 nSequence %d' % (a, g.u32()))
+        g.emit('set %d.1 scriptSig %s' % (s1, hx(g.script())))
+        g.emit('set %d.0.1.0 n %d' % (c, g.u32()))
+        g.emit('set %d.0 nValue %d' % (s2, g.value()))
+        g.emit('addin %d %s' % (b, s_txin(g.txin())))
+        g.emit('repin %d 0 %s' % (c, s_txin(g.txin())))
+        g.emit('setwitc %d %s %s' % (a, s_wit(g.witness(nin) or [[b'\x01']] * nin), r.choice(('ll', 'lt', 'tl'))))
+        g.emit('sighash %d %s 1 %d' % (c, hx(g.script(True)), r.choice((1, 3, 0x81))))
     else:               # the default witness (a list-backed CTxWitness), its cached hash, and witness replacement
         tv = g.tx(nin=nin, nout=nout)
         a = g.emit('newtxd %d %d %s %s' % (tv['ver'], tv['lock'], '|'.join(s_txin(i) for i in tv['vin']),
@@ -935,7 +1032,7 @@ def directed(rng, pool, which):
         g.emit('txid %d' % b)
     # then: every kind of mutation on every mutable root, interleaved with random ops
     for u, rt in list(enumerate(g.roots)):
-        if rt is None or not rt.get('mut'):
+        if rt is None or not rt.get('mut') or rt['kind'] in ('seqin', 'seqout'):
             continue
         if rt['kind'] == 'tx':
             muts = ['set %d nLockTime %d' % (u, g.u32()), 'set %d nVersion %d' % (u, g.version()),
@@ -1010,7 +1107,8 @@ class C09(Prop):
                     'Python hash() of bytes is a function of the bytes (64-bit collisions ignored)']
     assumptions = ['field values are of the types of Basic/Tx.lean (non-negative n/nSequence/nLockTime, ints, bytes)',
                    'objects are created and edited only through the catalogue (DESIGN §8 O1 is outside it)']
-    rule = ('histories: 9 directed aliasing templates with random values + random histories of 1..40 ops over the '
+    rule = ('histories: 11 directed aliasing templates (incl. every container kind for vin/vout/witness: list, tuple, '
+            'subclasses, iterators)  with random values + random histories of 1..40 ops over the '
             'whole catalogue (boundary/mined field values incl. out-of-range ones); thorough: all histories of length '
             '<= 3 over a 31-op alphabet; after every step every live object is observed; non-trivial = at least one '
             'object created and one mutation/copy/sighash executed; distinct by history text')
@@ -1027,11 +1125,15 @@ class C09(Prop):
         self.mods = (C, SC, SE)
 
     def generate(self, rng, tier, shard, nshards):
+        # shard-partition audit: the running index `i` and the order/number of enumerated slots never depend on
+        # `rng` (rng is consumed only inside a slot this shard has already selected), so every slot of the directed,
+        # random and exhaustive sub-domains is produced by exactly one shard (self-test: 44135/44135 exhaustive
+        # histories, none missing, none twice, over 16 shards).
         big = tier == 'thorough'
         pool = list(self.pool)
         i = 0
         for rep in range(60 if big else 12):
-            for which in range(9):
+            for which in range(11):
                 i += 1
                 if i % nshards != shard:
                     continue
@@ -1129,6 +1231,18 @@ def drop_step(ops, k):
                 w[2] = ','.join(str(x - 1 if x > k else x) for x in ns)
             elif kind in ('newtx', 'newctx', 'newhdr', 'newtxd'):
                 pass
+            elif kind == 'mkseq':
+                if w[3] != '-':
+                    its = [_renumber_target(x, k) for x in w[3].split(',')]
+                    if any(x is None for x in its):
+                        return None
+                    w[3] = ','.join(its)
+            elif kind == 'newctxfrom':
+                for j in (1, 2, 5):
+                    if w[j] != '-':
+                        w[j] = _renumber_target(w[j], k)
+                        if w[j] is None:
+                            return None
             elif kind in ('setref', 'repref'):
                 w[1] = _renumber_target(w[1], k)
                 w[3] = _renumber_target(w[3], k) if w[1] is not None else None
